@@ -98,6 +98,8 @@ type OpRec struct {
 	AcqSeq   map[string]uint64 `json:"-"`
 	Freed    map[string]string `json:"freed,omitempty"` // addr -> handle it was taken from
 	Handles  map[string]bool   `json:"-"`               // handle records written
+	// HandleDelta: net change this operation made to the total count of each handle record.
+	HandleDelta map[string]int `json:"handleDelta,omitempty"`
 
 	err error
 	mu  sync.Mutex
@@ -133,11 +135,13 @@ func (o *OpRec) noteFreed(a, h string) {
 	o.Freed[a] = h
 }
 
-func (o *OpRec) touchHandle(h string) {
+func (o *OpRec) touchHandle(h string, delta int) {
 	if o.Handles == nil {
 		o.Handles = map[string]bool{}
+		o.HandleDelta = map[string]int{}
 	}
 	o.Handles[h] = true
+	o.HandleDelta[h] += delta
 }
 
 // mayRelease reports whether the operation asked for the release of address a (held by handle h).
